@@ -44,6 +44,7 @@ import (
 //         m<size>b<cut> (protobuf paths) a valid two-field message of <size> bytes whose first <cut> bytes are a
 //                     complete message too (a field boundary at <cut>): cutting it there goes unnoticed by the decoder
 //         g<size>     <size> bytes that are framed like a message but do not decode
+//         z<size>b<cut> (enc=gzip, gRPC family) the two-field message of m<size>b<cut>, compressed as two gzip members
 //         u<size>     (enc=gzip, gRPC family) a valid message sent with the compressed flag clear
 //         x<size>     (enc=gzip, gRPC family) compressed flag set, <size> bytes that are not gzip
 //         p<P>:<A>    (gRPC family, hs-proto) a length prefix declaring P bytes followed by A bytes; ends the stream
@@ -734,10 +735,19 @@ func c08Run(o *out, input string) {
 				if !valid {
 					fp = -1
 				}
+				if d.kind == 'z' {
+					b = c08TwoField(d.size, d.cut)
+					fp, valid = d.size, true
+				}
 				flag := byte(0)
 				if grpcFam && gz && d.kind != 'u' {
 					flag = 1
-					if d.kind != 'x' {
+					if d.kind == 'z' {
+						// one message as two concatenated gzip members (RFC 1952 section 2.2): the size recorded in the
+						// frame's last four bytes is the last member's only
+						b = append(c08Gzip(b[:d.cut]), c08Gzip(b[d.cut:])...)
+						csizes = append(csizes, strconv.Itoa(len(b)))
+					} else if d.kind != 'x' {
 						b = c08Gzip(b)
 						csizes = append(csizes, strconv.Itoa(len(b)))
 					}
@@ -1043,6 +1053,20 @@ func c08Gen(o *out, r *rng, tier string) {
 					emitR(p, lim, 64, "gzip", "stream", fmt.Sprintf("u%d", sz), "flag-clear")
 				}
 				emitR(p, lim, 64, "gzip", "stream", fmt.Sprintf("x%d", sz), "not-gzip")
+			}
+		}
+	}
+	// gzip frames made of two members: a large first member and a last member of a few bytes (whose recorded size is all
+	// the frame's trailer tells), over and within the limit
+	for _, p := range []string{"grpc", "web", "webtext"} {
+		for _, lim := range []int{64, 1024, 4096} {
+			for _, size := range []int{lim - 9, lim, lim + 1, 3 * lim, 100 * lim} {
+				for _, tail := range []int{3, 12} {
+					if size-tail > 2 && c08Field(0x0a, size-tail, 'i') != nil && c08Field(0x12, tail, 't') != nil {
+						emitR(p, lim, 64, "gzip", "stream", fmt.Sprintf("z%db%d", size, size-tail), "gzip-two-members")
+						emitR(p, lim, 64, "gzip", "stream", fmt.Sprintf("m5,z%db%d,m7", size, size-tail), "gzip-two-members")
+					}
+				}
 			}
 		}
 	}
